@@ -37,6 +37,7 @@ from gymnasium.spaces import Box as GymBox
 
 import gridw
 import oracle
+import poke
 import spc
 from mgr import guarded
 
@@ -897,6 +898,26 @@ def null_info(x):
     return info
 
 
+def poke_components(base, desc):
+    """rejected assignments (harness/poke.py) on every grid-world component of a freshly built simulation and on its
+    grid's overlap table: what was configured stays in force"""
+    try:
+        from abmarl.sim.gridworld.base import GridWorldBaseComponent
+    except Exception:  # noqa: BLE001
+        return
+    seen, comps = set(), []
+    for v in list(vars(base).values()):
+        for c in (v if isinstance(v, (list, set, frozenset, tuple)) else [v]):
+            if isinstance(c, GridWorldBaseComponent) and id(c) not in seen:
+                seen.add(id(c))
+                comps.append(c)
+    for i, c in enumerate(sorted(comps, key=lambda c: type(c).__name__)):
+        poke.rejected(c, [desc, i, type(c).__name__])
+    grid = getattr(base, "grid", None)
+    if grid is not None and hasattr(type(grid), "overlapping"):
+        poke.rejected(grid, [desc, "grid"], only={"overlapping"})
+
+
 def run_session(desc, stop_after=None):
     """the list of Events of a session (see _session_events)"""
     return list(_session_events(desc, stop_after))
@@ -923,6 +944,7 @@ def _session_events(desc, stop_after=None):
             yield ev(0, -1, "", "build", None, None, "err", {"raised": str(base)[:200], "layer": "base"})
             return
         sim = base
+        poke_components(base, desc)
         for depth, w in enumerate(desc.get("wrappers", [])):
             if (w == "ravel" and not can_ravel(sim)) or (w == "flatten" and not can_flatten(sim)):
                 yield ev(0, -1, "", "skip", None, None, "ok", {"skipped": w + "-not-applicable"})
